@@ -3,6 +3,7 @@ package main
 import (
 	"encoding/json"
 	"fmt"
+	"sort"
 	"sync"
 	"time"
 
@@ -148,6 +149,7 @@ func collectJournal(rep *core.Report, cfg string) []*JState {
 		if err := json.Unmarshal(payload, &s); err != nil {
 			core.Infra("bad JSTATE line: %v: %s", err, payload)
 		}
+		sort.Ints(s.Plan.M)
 		mu.Lock()
 		emitted++
 		if k := s.fileKey(); !seen[k] {
